@@ -15,7 +15,7 @@ import subprocess
 import sys
 import time
 
-MUT = "/tmp/mut"
+MUT = os.environ.get("MUT_DIR", "/tmp/mut4")
 VERIF = "/verif"
 
 
